@@ -39,11 +39,11 @@ func TestC14(t *testing.T) {
 }
 
 type c14Obs struct {
-	supply                            map[string]sdkmath.Int
+	supply                             map[string]sdkmath.Int
 	dist, coll, bonded, notBonded, gov map[string]sdkmath.Int
-	pool                              sdk.DecCoins
-	outstanding                       sdk.DecCoins
-	others                            map[string]sdkmath.Int // Σ balances of all other accounts, per denom
+	pool                               sdk.DecCoins
+	outstanding                        sdk.DecCoins
+	others                             map[string]sdkmath.Int // Σ balances of all other accounts, per denom
 }
 
 var c14Denoms = []string{vn.Denom, "uother"}
